@@ -1,5 +1,6 @@
 // C10 harness (flavour H): every DIMACS text of a bounded grammar through read_dimacs_from_file (fmemopen),
 // compared field by field with the generator's model; and the three validators on every small multigraph.
+#include <unistd.h>
 #include "common/runner.hpp"
 #include <boost/graph/adjacency_list.hpp>
 #include <cstring>
@@ -16,6 +17,24 @@ typedef boost::adjacency_list<boost::vecS, boost::vecS, boost::undirectedS, boos
 typedef boost::adjacency_list<boost::listS, boost::vecS, boost::undirectedS, boost::property<boost::vertex_name_t, int>,
         boost::property<boost::edge_weight_t, double, boost::property<boost::edge_index_t, int>>> GraphLWI;
 static int g_graph_type = 0;
+// How the text reaches the reader (it takes a FILE*, not a file name): 0 = memory stream (fmemopen), 1 = the read end of a PIPE
+// (not seekable: ftell / fseek / rewind fail - what `cat g | mcb-dimacs /dev/stdin` or a process substitution hands over),
+// 2 = a regular temporary file opened for update (seekable, positioned at its start).
+static int g_stream = 0;
+static FILE *open_text(const std::string &txt) {
+    FILE *fp = nullptr;
+    if (g_stream == 1 && txt.size() < 60000) {        // below the pipe capacity: the whole text is written before the reader starts
+        int fd[2]; if (pipe(fd) != 0) { fprintf(stderr, "pipe failed\n"); exit(2); }
+        size_t off = 0; while (off < txt.size()) { ssize_t k = write(fd[1], txt.data() + off, txt.size() - off); if (k <= 0) { fprintf(stderr, "pipe write failed\n"); exit(2); } off += (size_t) k; }
+        close(fd[1]);
+        fp = fdopen(fd[0], "r");
+    } else if (g_stream == 2) {
+        fp = tmpfile();
+        if (fp) { if (!txt.empty() && fwrite(txt.data(), 1, txt.size(), fp) != txt.size()) { fprintf(stderr, "tmpfile write failed\n"); exit(2); } rewind(fp); }
+    } else fp = fmemopen((void*) txt.data(), txt.size(), "r");
+    if (!fp) { fprintf(stderr, "opening the text stream failed\n"); exit(2); }
+    return fp;
+}
 
 struct ELine { char kind; int u, v; int wi; };            // wi indexes WTXT; 0 = omitted
 static const char *WTXT[] = {"", "1", "15", "2.5", "100", "1.5e1", "0.125", "7", "2.5E-1", "1e+2"};     // incl. exponent notation (what %g / operator<< print)
@@ -48,8 +67,7 @@ static std::string check_text_t(const Text &t, const std::string &txt, std::stri
     bool expect_throw = false;
     for (auto &l : t.lines) if (l.u > t.n || l.v > t.n || l.u < 1 || l.v < 1) expect_throw = true;
     Graph g;
-    FILE *fp = fmemopen((void*) txt.data(), txt.size(), "r");
-    if (!fp) { fprintf(stderr, "fmemopen failed\n"); exit(2); }
+    FILE *fp = open_text(txt);
     bool threw = false, wrong_exc = false;
     try { parmcb::read_dimacs_from_file(fp, g); }
     catch (std::system_error &) { threw = true; }
@@ -109,6 +127,7 @@ int main(int argc, char **argv) {
         for (auto &p : vr::split(A.get("replay-case"), ';')) { auto eq = p.find('='); if (eq != std::string::npos) kv[p.substr(0, eq)] = p.substr(eq + 1); }
         std::string cls, err;
         if (kv.count("gt")) g_graph_type = atoi(kv["gt"].c_str());
+        if (kv.count("st")) g_stream = atoi(kv["st"].c_str());
         if (kv.count("dimacs_hex")) {
             // model is re-derived from the rendered text's generator parameters
             Text t; t.n = atoi(kv["n"].c_str()); t.final_newline = kv["nl"] == "1"; t.decl_m = atoi(kv["dm"].c_str());
@@ -127,6 +146,7 @@ int main(int argc, char **argv) {
     }
     std::string mode = A.get("mode", "reader");
     g_graph_type = (int) A.geti("graph-type", 0);
+    g_stream = (int) A.geti("stream", 0);
     int L = (int) A.geti("lines", 2);
     int nw = (int) A.geti("nweights", 6);           // number of weight spellings used (prefix of WTXT)
     int maxv = (int) A.geti("maxv", 4);             // vertex names minv..maxv (declared n ranges over 0..3; names < 1 or > n are undeclared)
@@ -141,7 +161,7 @@ int main(int argc, char **argv) {
         std::string lines, comments;
         for (auto &l : t.lines) { lines += (lines.empty() ? "" : ",") + std::string(1, l.kind) + "." + std::to_string(l.u) + "." + std::to_string(l.v) + "." + std::to_string(l.wi); }
         for (size_t i = 0; i < t.comments.size(); ++i) comments += (i ? "." : "") + std::to_string(t.comments[i]);
-        return "n=" + std::to_string(t.n) + ";dm=" + std::to_string(t.decl_m) + ";nl=" + (t.final_newline ? "1" : "0") + ";lines=" + lines + ";comments=" + comments + (g_graph_type ? ";gt=" + std::to_string(g_graph_type) : std::string()) + ";dimacs_hex=" + hex(txt);
+        return "n=" + std::to_string(t.n) + ";dm=" + std::to_string(t.decl_m) + ";nl=" + (t.final_newline ? "1" : "0") + ";lines=" + lines + ";comments=" + comments + (g_graph_type ? ";gt=" + std::to_string(g_graph_type) : std::string()) + (g_stream ? ";st=" + std::to_string(g_stream) : std::string()) + ";dimacs_hex=" + hex(txt);
     };
     auto text_case = [&](const Text &t) { return text_case2(t, render(t)); };
     if (mode == "reader") {
